@@ -18,7 +18,8 @@ MIN_EVALS = {"quick": 5000, "thorough": 100000}
 TIMEOUT = {"quick": 600, "thorough": 3000}
 N_CASES = {"quick": 1500, "thorough": 300000}     # per shard
 RULE = ("case = (model, parameter vector in bounds, indentation array with "
-        "samples at / one ulp around the contact point, orientation, call "
+        "samples at / one ulp around the contact point, descending / "
+        "ascending / approach+retract trace / unsorted, call "
         "path model_func vs NaniteFitModel.model); distinct by digest of "
         "(model, params, array bytes); non-trivial = at least one sample in "
         "contact and one out of contact")
@@ -63,8 +64,14 @@ def draw_case(rng):
         j = int(rng.integers(0, n - 2))
         x[j:j + 3] = [np.nextafter(cp, np.inf), cp, np.nextafter(cp, -np.inf)]
         x = np.sort(x)[::-1].copy()
-    if rng.random() < .5:
+    r = rng.random()
+    if r < .4:
         x = x[::-1].copy()      # ascending orientation
+    elif r < .55 and n >= 3:
+        # full approach + retract trace: both ends out of contact
+        x = np.concatenate([x, x[::-1][1:]])
+    elif r < .7 and n >= 3:
+        x = x[rng.permutation(n)]     # unsorted array
     full = dict(prm, contact_point=cp, baseline=bl)
     return mk, full, x
 
@@ -109,11 +116,8 @@ def one_case(rec, rng, case_id):
         out = md.model(p, x)
         via = "NaniteFitModel.model"
     else:
-        # model_func is documented for approach-ordered data; give it that
-        xd = x if x[0] >= x[-1] else x[::-1]
-        out = md.module.model_func(xd, **full)
-        if xd is not x:
-            out = out[::-1]
+        # the formulas are pointwise: any finite array, any order
+        out = md.module.model_func(x, **full)
         via = "model_func"
     incontact = int(np.sum(x < full["contact_point"]))
     rec.evaluated(dg=(mk, full, x), nontrivial=0 < incontact < x.size)
